@@ -104,6 +104,8 @@ def stream_values(kind, i):
     if kind == 'hexhash':
         from outrank.core_utils import internal_hash
         return internal_hash(str(i))
+    if kind == 'padded8':
+        return '%08d' % i        # fixed-width decimal ids: they look like 8-digit hex strings but are not uniformly distributed
     if kind == 'lcg':
         return '%016x' % ((6364136223846793005 * (i + 1) + 1442695040888963407) % (1 << 64))
     raise HarnessError(kind)
@@ -208,7 +210,8 @@ def run(ctx):
     n_real = WARM + 2 ** 14 if not ctx.thorough else 2 ** 21
     rjobs = [('dec_asc', 0, n_real, True), ('hexhash', 4, n_real, False)]
     if not ctx.thorough:
-        rjobs.append(('lcg', 0, 2 ** 21, False))    # one stream to the end of the stated range in the quick tier as well
+        rjobs.append(('lcg', 0, 2 ** 21, False))
+    rjobs.append(('padded8', 0, WARM + 2 ** 16 if not ctx.thorough else 2 ** 21, False))    # one stream to the end of the stated range in the quick tier as well
     if ctx.thorough:
         rjobs += [('dec_desc', 0, n_real, False), ('lcg', 0, n_real, False), ('dec_asc', 4, n_real, False), ('lcg', 4, n_real, True)]
     res = pmap(_dispatch, [('s', j) for j in jobs] + [('r', j) for j in rjobs] + [('p', None)])
